@@ -218,10 +218,18 @@ def check(clean, faulty, label):
             # raised while glue runs extract_outermost(): no Stack is being built by that call
             if id(exc) in reported:
                 notes.append("outermost:reported")
-            else:
-                notes.append("outermost:LOST")
+            elif inner.n >= 1:
+                # known finding F23: the nested extract_outermost() already had its frame when the hook failed
+                # and discards its private error list
+                notes.append("outermost:LOST-after-frame")
                 out.append((SIG_OUTERMOST, "O2 %s fault #%d raised inside the extract_outermost() call made by the contextlib glue "
-                            "is reported nowhere in the result" % (f["hook"], f["k"])))
+                            "after that call had its frame is reported nowhere in the result" % (f["hook"], f["k"])))
+            else:
+                # NOT F23: the nested call produced no frame, so it must re-raise the hook's exception, which then
+                # lands in the error list of the Stack being built around it
+                notes.append("outermost:LOST-before-frame")
+                out.append("O2 %s fault #%d raised inside the glue's extract_outermost() call BEFORE any frame was produced "
+                           "is reported nowhere in the result (not in any Stack.error / ExceptionGroup)" % (f["hook"], f["k"]))
             continue
         S = inner.stack
         if S is None:
@@ -499,6 +507,10 @@ def setup():
     def _(frame, context):
         return None
 
+    @unwrap_context_generator.register(acm_exiting)
+    def _(frame, context):
+        return None
+
     @elaborate_frame.register(c_host)
     def _(frame, next_inner):
         # insert a further generator before whatever follows
@@ -559,8 +571,39 @@ def s_exiting(cb):
     body()
 
 
+@contextlib.asynccontextmanager
+async def acm_exiting(holder):
+    async with acm_leaf():
+        try:
+            yield
+        finally:
+            holder[0]()
+
+
+def s_exiting_async(cb):
+    """the same for an @asynccontextmanager: extraction from inside its __aexit__"""
+    setup()
+    from stackscope import StackSlice
+    holder = [None]
+
+    async def abody():
+        fr = sys._getframe(0)
+
+        def at_exit():
+            cb(StackSlice(outer=fr, inner=sys._getframe(0)))
+        holder[0] = at_exit
+        async with acm_exiting(holder):
+            pass
+    co = abody()
+    try:
+        co.send(None)
+    except StopIteration:
+        pass
+
+
 SCENARIOS = [("async_chain", s_async), ("asyncgen", s_agen), ("thread", s_thread), ("greenlet", s_greenlet),
-             ("custom_items", s_custom), ("running_stack", s_running), ("exiting_manager", s_exiting)]
+             ("custom_items", s_custom), ("running_stack", s_running), ("exiting_manager", s_exiting),
+             ("exiting_async_manager", s_exiting_async)]
 
 
 class Pt:
